@@ -166,7 +166,10 @@ class InvokeOperationExecutor(OperationExecutor[R]):
             ExecutionError: If suspend doesn't raise (should never happen)
         """
         msg: str = f"Invoke {self.operation_identifier.operation_id} started, suspending for completion"
-        suspend_with_optional_resume_delay(msg, self.config.timeout_seconds)
+        # A timeout of 0 means "no timeout" (the default): suspend indefinitely instead of
+        # asking for a resume in 0 seconds, which inside a map/parallel branch re-runs the
+        # branch (and checkpoints) in a tight loop for as long as a sibling is still running.
+        suspend_with_optional_resume_delay(msg, self.config.timeout_seconds or None)
         # This line should never be reached since suspend_with_optional_resume_delay always raises
         error_msg: str = "suspend_with_optional_resume_delay should have raised an exception, but did not."
         raise ExecutionError(error_msg) from None
